@@ -371,8 +371,22 @@ class Fn:
         if place is None:
             return ("unknown",)
         l = place["l"]
-        proj = [self._proj_str(p) for p in place.get("p", [])]
+        raw = place.get("p", [])
         base = self._origin_local(l, depth, seen)
+        # a field read from a tuple that was just built (`match (a, b) { (Some(x), _) => .. }`) is the corresponding component
+        while raw and base[0] == "aggr" and base[1].get("agg") == "tuple" and raw[0].get("k") == "field" and isinstance(raw[0].get("i"), int) \
+                and raw[0]["i"] < len(base[1].get("ops", [])) and depth > 0:
+            comp = base[1]["ops"][raw[0]["i"]]
+            raw = raw[1:]
+            depth -= 1
+            base = self.origin(comp, depth, seen)
+            if base[0] == "proj":
+                # merge projections
+                inner_base, inner_proj = base[1], list(base[2])
+                if raw:
+                    return ("proj", inner_base, inner_proj + [self._proj_str(p) for p in raw])
+                return base
+        proj = [self._proj_str(p) for p in raw]
         if proj:
             return ("proj", base, proj)
         return base
